@@ -154,6 +154,8 @@ structure JSt where
   acked : List ((MsgKey × Bytes) × Snap) := []    -- last acknowledged cached content of each pending lane
   cfirst : List ((MsgKey × Bytes) × (Bytes × Snap × Status)) := []  -- first cache-level result of each event id of a live session
   tainted : List (MsgKey × Bytes) := []           -- pending lanes whose acknowledged content was silently dropped
+  fuzzy : List MsgKey := []                       -- messages with an acknowledgement the judge could not interpret: the cache may hold open lanes it does not know of
+  seen : List (MsgKey × Bytes) := []              -- event ids acknowledged at node level since the message's session (re)started
 
 def worst (a b : String) : String := if a == "ok" then b else a
 
@@ -202,11 +204,21 @@ def judgeEvent (j : JSt) (raw : RawEvent) (node : Bool) (impl : String) : JSt ×
             let known := j.sess.contains m && !unsure
             -- a session with an open (pending) lane is never evicted: only then is the cache's memory certain
             let alive := known && !pend.isEmpty
+            let wasSeen := j.seen.contains (m, ev.id)
+            let j := if wasSeen then j else { j with seen := (m, ev.id) :: j.seen }
             match (if alive then aget (m, ev.id) j.cfirst else none) with
             | some f =>
               -- replayed event id inside a live session: the stored result, nothing applied again
               (j, if f == (k, rl.snap, st) then "ok" else "viol:replay-applied-twice")
             | none =>
+              -- an id acknowledged before whose first result the judge no longer holds may be answered
+              -- from the cache's memory (a stale result, possibly of another lane): it says nothing
+              -- about the lane's present content, so it is not used as evidence
+              if wasSeen then
+                -- ... and the judge no longer knows the content of the lanes it may have touched
+                let unk := fun (x : MsgKey × Bytes) => x == (m, k) || x == (m, ev.key)
+                ({ j with acked := j.acked.filter (fun x => !unk x.1), tainted := j.tainted.filter (fun x => !unk x),
+                          fuzzy := if j.fuzzy.contains m then j.fuzzy else m :: j.fuzzy }, "ok") else
               -- new id (or a session the cache may have forgotten: start over for this message)
               let j := if alive then j else
                 { j with cfirst := j.cfirst.filter (fun x => x.1.1 != m), acked := j.acked.filter (fun x => x.1.1 != m),
@@ -216,7 +228,12 @@ def judgeEvent (j : JSt) (raw : RawEvent) (node : Bool) (impl : String) : JSt ×
                 let victims := j.sess.filter fun x => x != m && ((aget x j.pending).getD []).isEmpty
                 { j with sess := m :: j.sess.filter (fun x => x != m && !victims.contains x),
                          unsure := (victims ++ j.unsure).filter (· != m) }
-              if st.terminal then ({ j with cfirst := aput (m, ev.id) (k, rl.snap, st) j.cfirst }, "ok")
+              if st.terminal then
+                -- the lane is terminal in the cache: it holds no open content any more
+                ({ j with cfirst := aput (m, ev.id) (k, rl.snap, st) j.cfirst,
+                          pending := aput m (((aget m j.pending).getD []).filter (· != k)) j.pending,
+                          acked := j.acked.filter (fun x => x.1 != (m, k)),
+                          tainted := j.tainted.filter (· != (m, k)) }, "ok")
               else
                 -- continuity: the acknowledged lane content extends what was acknowledged before
                 let broken := match (if alive && pend.contains k then aget (m, k) j.acked else none) with
@@ -240,15 +257,16 @@ def judgeEvent (j : JSt) (raw : RawEvent) (node : Bool) (impl : String) : JSt ×
                 (match pl with | some p => !p.status.terminal | none => true) && nl.snap != a
               | _, _, _ => false
             let v := if unsure then "ok"
-                     else if pend.isEmpty && !hasSnapshot ev.pl then "viol:finish-not-fail-closed"
+                     else if pend.isEmpty && !hasSnapshot ev.pl && !j.fuzzy.contains m then "viol:finish-not-fail-closed"
                      else if !finishCovers pend new then "viol:finish-dropped-cached-lane"
                      else if lost || wrong then "viol:finish-dropped-acknowledged-deltas" else "ok"
             ({ j with pending := adel m j.pending, sess := j.sess.filter (· != m), unsure := j.unsure.filter (· != m),
                       cfirst := j.cfirst.filter (fun x => x.1.1 != m), acked := j.acked.filter (fun x => x.1.1 != m),
-                      tainted := j.tainted.filter (fun x => x.1 != m) }, v)
+                      tainted := j.tainted.filter (fun x => x.1 != m), seen := j.seen.filter (fun x => x.1 != m), fuzzy := j.fuzzy.filter (· != m) }, v)
           else
             -- close/error/cancel: markTerminalPersisted copies the returned lane into an existing session
             -- (a replayed id may return a lane that is still open: it is then open in the cache too)
+            let j := if j.seen.contains (m, ev.id) then j else { j with seen := (m, ev.id) :: j.seen }
             if !j.sess.contains m || unsure then (j, "ok")
             else
               let v := if st.terminal && j.tainted.contains (m, k) then "viol:finish-dropped-acknowledged-deltas" else "ok"
@@ -262,7 +280,7 @@ def judgeEvent (j : JSt) (raw : RawEvent) (node : Bool) (impl : String) : JSt ×
 
 def c40Step (j : JSt) (op impl : String) : JSt × String × String :=
   match fields op with
-  | ["lose"] => ({ j with n := loseCache j.n, pending := [], sess := [], unsure := [], acked := [], cfirst := [], tainted := [] }, "ok", "ok")
+  | ["lose"] => ({ j with n := loseCache j.n, pending := [], sess := [], unsure := [], acked := [], cfirst := [], tainted := [], seen := [], fuzzy := [] }, "ok", "ok")
   | ["cap", c] =>
     match c.toNat? with
     | some c => if c == 0 || c > 100000 then (j, "bad-op", "ok") else ({ j with n := { j.n with cap := c } }, "ok", "ok")
@@ -278,7 +296,8 @@ def c40Step (j : JSt) (op impl : String) : JSt × String × String :=
       let gone := fun (m : MsgKey) => lost.contains (hashSlotOf m.ch own.length)
       ({ j with n := setRoute j.n r, pending := j.pending.filter (fun p => !gone p.1), sess := j.sess.filter (fun m => !gone m),
                 unsure := j.unsure.filter (fun m => !gone m), acked := j.acked.filter (fun x => !gone x.1.1),
-                cfirst := j.cfirst.filter (fun x => !gone x.1.1), tainted := j.tainted.filter (fun x => !gone x.1) },
+                cfirst := j.cfirst.filter (fun x => !gone x.1.1), tainted := j.tainted.filter (fun x => !gone x.1),
+                seen := j.seen.filter (fun x => !gone x.1), fuzzy := j.fuzzy.filter (fun x => !gone x) },
         "ok", "ok")
     | _, _ => (j, "bad-op", "ok")
   | ["q", ch, ct, no] =>
